@@ -30,6 +30,19 @@ def install_stub(seed):
             self.pool._flush()
             return self.pool.results[self.idx]
 
+    class _Done:
+        def __init__(self, value):
+            self.value = value
+
+        def get(self, timeout=None):
+            return self.value
+
+        def wait(self, timeout=None):
+            pass
+
+        def ready(self):
+            return True
+
     class StubPool:
         def __init__(self, processes=None, *a, **k):
             self.tasks, self.results = [], {}
@@ -48,9 +61,44 @@ def install_stub(seed):
             ARRIVALS.append(["imap_unordered", [r[0] if isinstance(r, tuple) else None for r in res]])
             return iter(res)
 
-        def apply_async(self, fn, args=(), kwds=None):
+        def apply_async(self, fn, args=(), kwds=None, callback=None, error_callback=None):
             self.tasks.append((fn, args, kwds or {}))
             return _Async(self, len(self.tasks) - 1)
+
+        # ordered APIs: tasks are EXECUTED in a permuted order, results handed back in input order (what a
+        # real pool guarantees), so that a harmless switch between Pool methods is not an alarm
+        def _ordered(self, name, fn, items, star):
+            order = list(range(len(items)))
+            rng.shuffle(order)
+            out = {}
+            for i in order:
+                out[i] = fn(*items[i]) if star else fn(items[i])
+            ARRIVALS.append([name, [out[i][0] if isinstance(out[i], tuple) else None for i in order]])
+            return [out[i] for i in range(len(items))]
+
+        def map(self, fn, iterable, chunksize=None):
+            return self._ordered("map", fn, list(iterable), False)
+
+        def imap(self, fn, iterable, chunksize=1):
+            return iter(self._ordered("imap", fn, list(iterable), False))
+
+        def starmap(self, fn, iterable, chunksize=None):
+            return self._ordered("starmap", fn, [tuple(a) for a in iterable], True)
+
+        def map_async(self, fn, iterable, chunksize=None, callback=None, error_callback=None):
+            return _Done(self.map(fn, iterable))
+
+        def starmap_async(self, fn, iterable, chunksize=None, callback=None, error_callback=None):
+            return _Done(self.starmap(fn, iterable))
+
+        def close(self):
+            pass
+
+        def join(self):
+            pass
+
+        def terminate(self):
+            pass
 
         def _flush(self):
             pending = [i for i in range(len(self.tasks)) if i not in self.results]
